@@ -79,6 +79,8 @@ fn bundle_typed_component(sel: u64, out: &mut Out) {
     }
 }
 
+const SPAWNS_UNKNOWN: usize = usize::MAX / 2;
+
 fn type_index(id: TypeId) -> u64 {
     let ids = [
         TypeId::of::<C0>(),
@@ -497,7 +499,9 @@ impl Engine {
                 if !self.live_pub(w) {
                     return vec![8];
                 }
-                let n = self.cmd_spawns[cb];
+                // after a replay that panicked the rest of the commands is still in the buffer: their number is not tracked
+                let spawns_known = self.cmd_spawns[cb] < SPAWNS_UNKNOWN;
+                let n = if spawns_known { self.cmd_spawns[cb] } else { 0 };
                 self.cmd_spawns[cb] = 0;
                 let ncmds = self.cmd_counts[cb];
                 self.cmd_counts[cb] = 0;
@@ -514,6 +518,10 @@ impl Engine {
                 spawned.sort();
                 match res {
                     Ok(()) => {
+                        // (fewer is possible: a recorded despawn may name the handle a recorded spawn is going to get)
+                        if spawns_known && spawned.len() > n {
+                            out.flag(format!("C11: {n} spawns were recorded but the replay created {} entities", spawned.len()));
+                        }
                         self.resync_shadow(w, ncmds > 0);
                         for b in &spawned {
                             let h = Entity::from_bits(*b).unwrap();
@@ -529,6 +537,7 @@ impl Engine {
                         // the commands after the one that panicked stay in the buffer and run with the next run_on
                         // (possibly on the other world): the shadow of that world must be re-read then
                         self.cmd_counts[cb] = ncmds.max(1);
+                        self.cmd_spawns[cb] = SPAWNS_UNKNOWN;
                         for b in &spawned {
                             self.handles.push(Entity::from_bits(*b).unwrap());
                         }
